@@ -14,7 +14,7 @@ import (
 // milliseconds relative to T0 (TLC integers are 32 bit).
 var T0 = time.Date(2024, 1, 1, 0, 0, 0, 0, time.UTC)
 
-func Ms(t time.Time) int { return int(t.Sub(T0) / time.Millisecond) }
+func Ms(t time.Time) int  { return int(t.Sub(T0) / time.Millisecond) }
 func At(ms int) time.Time { return T0.Add(time.Duration(ms) * time.Millisecond) }
 
 // SeqReply is one scripted answer of the sequencing layer.
